@@ -6,7 +6,7 @@ from ..common import Check, ROOT, src_ref
 
 
 def run(tier):
-    chk = Check('C12', tier)
+    chk = Check('C12', tier, level='exploration')
     from sqlparse import sql, utils
     from sqlparse.engine import grouping
     chk.functions += [src_ref(utils.remove_quotes), src_ref(sql.NameAliasMixin.get_real_name), src_ref(sql.NameAliasMixin.get_alias),
